@@ -282,6 +282,19 @@ func buildCases(seed int64, thorough bool) []caseSpec {
 				n++
 			}
 		}
+		// ---- the same on the SERVER's end of the pipe: a server connection that writes v5 segments (or v4 frames)
+		for _, v := range []int{5, 4} {
+			for _, st := range []stepDef{{Step: "startup-sent"}, {Step: "ready"}, {Step: "inflight", K: 4}, {Step: "mid-response", K: 4}} {
+				if v == 4 && st.Step != "inflight" {
+					continue
+				}
+				for fi, f := range []string{"write-err", "short-write", "read-err"} {
+					after := []int{0, 3, 9}[(n+fi+round)%3]
+					add(caseSpec{Class: "seq", Setup: "pipe-both-sfc", Step: st.Step, Fault: f, Version: v, K: st.K, After: after, Receivers: (n+round)%2 == 0})
+					n++
+				}
+			}
+		}
 		// ---- the net.Conn reports an error from Close() (after really closing): k in {0,1,N}, blocked receivers
 		for _, setup := range []string{"pipe-client", "pipe-server", "pipe-both"} {
 			for _, st := range []stepDef{{Step: "ready"}, {Step: "inflight", K: 1}, {Step: "inflight", K: 8}, {Step: "mid-response", K: 4}} {
